@@ -117,20 +117,32 @@ def drive_sync(g, ops):
     return out
 
 
-def coroutine_probe(spec):
-    """a coroutine returning a value, a bad value, or raising: original vs decorated"""
-    async def co(x: int = 0) -> int:
-        await asyncio.sleep(0)
-        if spec == 'raise':
-            raise KeyError('from body')
-        return 'bad' if spec == 'bad' else 7
+COROUTINE_ANNS = {
+    'int': 'int', 'absent': None, 'NoReturn': 'typing.NoReturn', 'Never': 'typing.Never', 'Optional[int]': 'typing.Optional[int]',
+    'Coroutine[int]': 'collections.abc.Coroutine[typing.Any, typing.Any, int]',
+    'Coroutine[NoReturn]': 'collections.abc.Coroutine[typing.Any, typing.Any, typing.NoReturn]',
+}
+
+
+def coroutine_probe(spec, ann='int'):
+    """a coroutine returning a value, a bad value, or raising, under several return annotations: original vs decorated"""
+    import collections.abc, typing  # noqa
+    log = []
+    src = ('async def co(x: int = 0)%s:\n    log.append("start")\n    await asyncio.sleep(0)\n    log.append("resumed")\n'
+           '    if spec == "raise":\n        raise KeyError("from body")\n    return "bad" if spec == "bad" else 7\n'
+           % ('' if COROUTINE_ANNS[ann] is None else ' -> ' + COROUTINE_ANNS[ann]))
+    ns = {'asyncio': asyncio, 'log': log, 'spec': spec, 'typing': typing, 'collections': collections}
+    exec(src, ns)
+    co = ns['co']
     d = beartype(co)
     res = {'kind_same': inspect.iscoroutinefunction(d) == inspect.iscoroutinefunction(co) is True}
     for name, f in (('orig', co), ('deco', d)):
+        del log[:]
         try:
             res[name] = ['ok', asyncio.run(f())]
         except BaseException as e:  # noqa
             res[name] = ['raise', type(e).__name__]
+        res[name + '_log'] = list(log)
     return res
 
 
@@ -140,7 +152,7 @@ def main():
     out = []
     for case in payload['cases']:
         if case['mode'] == 'coroutine':
-            out.append(coroutine_probe(case['spec']))
+            out.append(coroutine_probe(case['spec'], case.get('ann', 'int')))
             continue
         res = {}
         for which in ('orig', 'deco'):
